@@ -25,13 +25,18 @@ def is_html(scanner: BackwardScanner):
 
     while not scanner.sol():
         scanner.consume_while(is_white_space)
+        ident_start = scanner.pos
 
         if consume_ident(scanner):
             # ate identifier: could be a tag name, boolean attribute or unquoted
             # attribute value
             if scanner.consume(Chars.Slash):
-                # either closing tag or invalid tag
+                # either closing tag, unquoted value with slashes (`<a href=/foo/bar>`)
+                # or invalid tag
                 ok = scanner.consume(Chars.AngleLeft)
+                if not ok:
+                    scanner.pos = ident_start
+                    ok = consume_attribute_with_unquoted_value(scanner)
                 break
             elif scanner.consume(Chars.AngleLeft):
                 # opening tag
